@@ -437,10 +437,44 @@ fn messages_consistent(e: &(dyn std::error::Error + 'static)) -> bool {
     }
     true
 }
+/// the combinators' error types cannot be named outside the crate; when the debug form of an error is not structural
+/// (hand-written prose), the path is read off what is public instead: the source chain and the messages - a level whose
+/// message names exactly one of "first" / "second" is that part, a level that names an element number is a mapped
+/// element, and the chain must end in the probe's own error (identified by downcasting)
+fn display_path(e: &(dyn std::error::Error + 'static), depth: usize) -> Option<Tree> {
+    if depth > 64 {
+        return None;
+    }
+    if let Some(p) = e.downcast_ref::<ProbeErr>() {
+        return Some(tl![A(0), a(p.0)]);
+    }
+    let text = e.to_string().to_lowercase();
+    let inner = display_path(e.source()?, depth + 1)?;
+    let (first, second) = (text.contains("first"), text.contains("second"));
+    if text.contains("element") {
+        let digits: String = text.chars().skip_while(|c| !c.is_ascii_digit()).take_while(char::is_ascii_digit).collect();
+        return Some(tl![A(3), inner, a(digits.parse::<i64>().ok()?)]);
+    }
+    match (first, second) {
+        (true, false) => Some(tl![A(1), inner]),
+        (false, true) => Some(tl![A(2), inner]),
+        _ => None,
+    }
+}
 fn fin<T: ToVal, E: std::error::Error + 'static>(r: Result<T, E>) -> Tree {
     match r {
         Ok(v) => tl![A(0), v.val()],
-        Err(e) => tl![A(1), if messages_consistent(&e) { err_tree(&format!("{e:?}")) } else { tl![A(-2)] }],
+        Err(e) => tl![
+            A(1),
+            if messages_consistent(&e) {
+                match err_tree(&format!("{e:?}")) {
+                    L(ref v) if v.len() == 1 && matches!(v[0], A(-1)) => display_path(&e, 0).unwrap_or(tl![A(-1)]),
+                    t => t,
+                }
+            } else {
+                tl![A(-2)]
+            }
+        ],
     }
 }
 
